@@ -77,6 +77,10 @@ def run(c):
     by.update({("esl", i): json.loads(l) for i, l in items if i in res or i in deaths})
     nesl = len(items)
     # (2) descriptor / WIN_CERTIFICATE relations of spec/AuthDescriptor.tla (length field vs bytes available, revision, type)
+    live = 'CONSTANT Tier = "q"\nSPECIFICATION LiveBad\nPROPERTY Terminates\nCHECK_DEADLOCK FALSE\n'
+    c.tlc("MC_AuthDescriptor", "live.cfg", files={"live.cfg": live}, name="liveness-LiveBad")
+    E.liveness(c, "LiveNear", "q", name="liveness-esl") if not c.quick else None
+    c.cov["liveness"] = c.cov.get("liveness", []) + ["MC_AuthDescriptor!LiveBad |= Terminates (design-level: the descriptor reader ends on every malformed relation)"]
     dl = c10.enumerate_cases(c, "BadInit", "descriptor-relations")
     ditems = [(i, '{"sc":%d,' % i + l[1:]) for i, l in enumerate(dl)]
     res, deaths = c.run_worker("desc", ditems, env=env)
@@ -96,7 +100,7 @@ def run(c):
     #     unsynchronised state dies with a runtime fatal error) and nothing piles up in memory with the number of inputs seen
     big = ("sigdb", "auth2", "auth2.Unmarshal", "sigdb.Unmarshal", "siglist", "wincert", "wincertguid", "key", "cert", "keyfile", "certfile")
     for e in ENTRIES:
-        n = (3000 if c.quick else 30000) if e.split("@")[0] in big else (120000 if c.quick else 600000)
+        n = (2000 if c.quick else 30000) if e.split("@")[0] in big else (60000 if c.quick else 600000)
         fz.append({"sc": len(fz), "entry": e, "mode": "many", "n": n, "par": 1})
         fz.append({"sc": len(fz), "entry": e, "mode": "many", "n": n, "par": 8})
     res, deaths = c.run_worker("fuzz", fz, env=env, timeout=3000)
